@@ -74,9 +74,16 @@ def generate(seed, tier, index):
         if vec == "TXT":
             val = rng.choice(["alpha", "beta", "alpha", "g\xe9", "x<y"])
         elif vec == "NUM":
-            val = rng.choice([1.5, 2.25, 1.5, -3.0, 0.0])
+            # (incl. two Julian dates one second apart: different values whose relative difference is 5e-12)
+            val = rng.choice([1.5, 2.25, 1.5, -3.0, 0.0, 2460000.5, 2460000.500012, 2460000.5])
         else:
             val = rng.choice(["On", "Off"])
+        if vec == "NUM" and rng.random() < 0.15:
+            # two different values closer to one another than 1e-9 relative, one after the other (a real change)
+            a, b = rng.choice([(2460000.5, 2460000.500012), (1700000000.0, 1700000001.0), (1e-12, 2e-12)])
+            steps.append({"op": rng.choice(["set_value", "assign"]), "vec": vec, "el": el, "value": a})
+            steps.append({"op": rng.choice(["set_value", "assign"]), "vec": vec, "el": el, "value": b})
+            continue
         if r < 0.45:
             st = {"op": "client_write", "vec": vec, "els": [[el, val]]}
             if rng.random() < 0.2:
@@ -392,7 +399,8 @@ def execute(scen):
                 if vec in ("ANY", "ONE"):
                     ctx_state[vec] = switch_state(vec)
                 order = mv.list_elements()
-                pairs = sorted({e: v for e, v in st["els"]}.items(), key=lambda p: order.index(p[0]))
+                # (a number travels as the text its format renders: what the driver is asked for is that text's value)
+                pairs = sorted({e: (float("%.2f" % v) if vec == "NUM" else v) for e, v in st["els"]}.items(), key=lambda p: order.index(p[0]))
 
                 def submit():
                     for el, val in pairs:
